@@ -1,6 +1,7 @@
 package props
 
 import (
+	"time"
 	"bytes"
 	"testing"
 
@@ -138,7 +139,18 @@ func c15Run(c c15Case) (out Outcome) {
 	} else {
 		stage = "client-compress"
 		bufs := c15Buffers(c, payload)
-		stream = region.VerifCompressCellblocks(codec, bufs, uint32(len(payload)))
+		// (under a real-time watchdog: a compressor that never returns keeps allocating)
+		done := make(chan []byte, 1)
+		go func() { done <- region.VerifCompressCellblocks(codec, bufs, uint32(len(payload))) }()
+		select {
+		case stream = <-done:
+		case <-time.After(10 * time.Second):
+			lens := []int{}
+			for _, b := range bufs {
+				lens = append(lens, len(b))
+			}
+			return viol("client-spin@compressCellblocks", "compressing %d bytes given as buffers of lengths %v had not returned after 10 s of real time", len(payload), lens)
+		}
 		out.Labels = append(out.Labels, "client_stream")
 		if len(bufs) > 1 {
 			out.Labels = append(out.Labels, "multi_buffer")
